@@ -1685,6 +1685,16 @@ func Program(rt *rapid.T, p Profile) (*oracle.Program, *Meta) {
 	if pairs {
 		g.line("fmt.Println(\"pairs\", PA, PB, PC, PD, PE, PF, PG, PH, PI, PJ, PK, PL)")
 	}
+	if rapid.Bool().Draw(g.rt, "anyblock") {
+		// values of type any compared with nil, whatever they hold
+		g.meta.feat("anyblock")
+		g.line("var av any = bs")
+		g.line("fmt.Println(\"any\", av == nil, nil == av, av != nil)")
+		g.line("av = bf")
+		g.line("fmt.Println(\"any\", av == nil, nil != av)")
+		g.line("av = nil")
+		g.line("fmt.Println(\"any\", av == nil, nil == av)")
+	}
 	if rapid.Bool().Draw(g.rt, "sideblock") {
 		// op-assignments whose container and index (or key) are both calls, plain and under a conversion: each
 		// operand is evaluated once, left to right
